@@ -1020,7 +1020,8 @@ Qed.
 Lemma open_sim gt ign p3 g v' q' :
   cs_ign cs = ign -> reach cs (40 :: p3) -> starts_qhash p3 = false ->
   Parser.group_open is_word_char tbm mco gt (mkGV o ign a) p3 = POk (g, v', q') ->
-  (hd_is p3 63 = true /\ nth_is 1 p3 41 = true /\ q' = p3 /\ g <> None) \/ open_post cs o ign a p3 g v' q'.
+  (hd_is p3 63 = true /\ nth_is 1 p3 41 = true /\ q' = p3 /\ g <> None) \/
+  (open_post cs o ign a p3 g v' q' /\ ((is_nil p3 || negb (hd_is p3 63) || nth_is 1 p3 41) = true -> hd_is p3 63 = false)).
 Proof.
   intros Hign HR Hq E. unfold Parser.group_open in E. cbn [gv_o gv_ign gv_autocap] in E.
   pose proof (oeqv_useN _ _ Ho) as HN.
@@ -1029,7 +1030,7 @@ Proof.
     - left. assert (N1 : nth_is 1 p3 41 = true).
       { destruct p3; [discriminate|]. cbn [is_nil negb orb] in E0. exact E0. }
       split; [reflexivity|]. split; [exact N1|]. destruct (useN o || ign); injection E as <- <- <-; split; try reflexivity; discriminate.
-    - right.
+    - right. split; [|intros _; reflexivity].
       assert (PO : prescan_open mco cs (40 :: p3) p3 =
                    POk (if negb (useN (cs_o cs)) && negb (cs_ign cs)
                         then set_cs_ign (set_cs_c st1 (note_auto (cs_c cs))) false else set_cs_ign st1 false, p3)).
@@ -1047,7 +1048,7 @@ Proof.
         * cbn [set_cs_ign set_cs_c cs_c gv_autocap]. rewrite NA1, Ha. reflexivity.
         * cbn [gv_ign]. intros H. destruct (useN o), ign; discriminate.
         * intros _ _. cbn [set_cs_ign set_cs_c cs_c]. rewrite <- Ha. exact NA2. }
-  right.
+  right. split; [|intros HH; rewrite HH in E0; discriminate].
   assert (H63 : hd_is p3 63 = true) by (destruct (hd_is p3 63); [reflexivity | rewrite orb_true_r in E0; discriminate]).
   destruct p3 as [|c0 p4]; [discriminate|]. cbn [hd_is] in H63. assert (c0 = 63) by lia. subst c0. cbn [tl] in E.
   destruct p4 as [|ch p5]; [discriminate|].
@@ -1143,5 +1144,257 @@ Proof.
 Qed.
 
 End OpenSim.
+
+
+(* scanGroupOpen never touches the ECMAScript bit *)
+Lemma group_open_useE gt v p g v' q :
+  Parser.group_open is_word_char (captab_main tb) mco gt v p = POk (g, v', q) -> useE (gv_o v') = useE (gv_o v).
+Proof.
+  unfold Parser.group_open. intros E.
+  destruct (is_nil p || negb (hd_is p 63) || nth_is 1 p 41).
+  { destruct (useN (gv_o v) || gv_ign v); injection E as <- <- <-; reflexivity. }
+  destruct (tl p) as [|ch p2]; [discriminate|].
+  assert (CL : useE (clear_rtl (gv_o v)) = useE (gv_o v)) by (apply oeqv_useE; apply oeqv_clear_rtl).
+  assert (ST : useE (set_rtl (gv_o v)) = useE (gv_o v)) by (apply oeqv_useE; apply oeqv_set_rtl).
+  destruct (ch =? 58); [injection E as <- <- <-; reflexivity|].
+  destruct (ch =? 61); [injection E as <- <- <-; exact CL|].
+  destruct (ch =? 33); [injection E as <- <- <-; exact CL|].
+  destruct (ch =? 62); [injection E as <- <- <-; reflexivity|].
+  destruct ((ch =? 39) || (ch =? 60)).
+  { destruct p2 as [|c2 p3]; [discriminate|].
+    destruct ((c2 =? 61) || (c2 =? 33)).
+    - destruct ((if ch =? 39 then 39 else 62) =? 39); [discriminate|]. injection E as <- <- <-. exact ST.
+    - unfold Parser.group_name in E. cbn [gv_o gv_ign gv_autocap] in E.
+      destruct (useE (gv_o v)) eqn:EE; [discriminate|].
+      match type of E with pbind ?A _ = _ => destruct A as [[[capnum proceed] q0]|e q0| | |] end; cbn [pbind] in E; try discriminate.
+      match type of E with pbind ?A _ = _ => destruct A as [[uncapnum q3]|e q3| | |] end; cbn [pbind] in E; try discriminate.
+      match type of E with (if ?c then _ else _) = _ => destruct c end; [|discriminate]. injection E as <- <- <-. cbn [gv_o]. first [reflexivity | exact EE]. }
+  destruct (ch =? 40).
+  { unfold Parser.group_cond in E. cbn [gv_o gv_ign gv_autocap] in E.
+    match type of E with pbind ?A _ = _ => destruct A as [[[gn q1]|]|e q1| | |] end; cbn [pbind] in E; try discriminate.
+    - injection E as <- <- <-. reflexivity.
+    - repeat match type of E with (if ?c then _ else _) = _ => destruct c end; try discriminate; injection E as <- <- <-; reflexivity. }
+  destruct ((ch =? 80) && useRE2 (gv_o v)).
+  { unfold Parser.group_pyname in E. cbn [gv_o gv_ign gv_autocap] in E.
+    destruct (negb (longer p2 2)); [discriminate|]. destruct (negb (hd_is p2 60)); [discriminate|].
+    destruct (is_word_char (nth 1 p2 0)); [|discriminate]. destruct (useE (gv_o v)) eqn:EE; [discriminate|].
+    destruct (scan_word is_word_char (tl p2)) as [nm q0]. destruct (hd_is_not q0 62); [discriminate|].
+    match type of E with (if ?c then _ else _) = _ => destruct c end; [|discriminate]. injection E as <- <- <-. cbn [gv_o]. first [reflexivity | exact EE]. }
+  destruct (if gt =? T_ExprCond then (gv_o v, ch :: p2) else scan_options_text (gv_o v) (ch :: p2)) as [o2 q0] eqn:Eo.
+  assert (R : useE o2 = useE (gv_o v)).
+  { destruct (gt =? T_ExprCond); [inversion Eo; reflexivity|]. apply inline_options_keep_top_bits in Eo. tauto. }
+  destruct q0 as [|c q1]; [discriminate|].
+  destruct (c =? 41); [injection E as <- <- <-; exact R|].
+  destruct (c =? 58); [|discriminate]. injection E as <- <- <-. exact R.
+Qed.
+
+(* ---------------------------------------------------------------- the simulation *)
+Variable caps : list Z.
+Hypothesis HF1 : incl (c_caps (cs_c cstF)) caps.
+
+Record Sim (cs : cst) (st : mst) (p : list Z) : Prop := mkSim {
+  sm_o : oeqv (ms_o st) (cs_o cs);
+  sm_os : Forall2 oeqv (ms_os st) (cs_os cs);
+  sm_ign : cs_ign cs = ms_ign st;
+  sm_auto : c_autocap (cs_c cs) = ms_autocap st;
+  sm_E : useE (ms_o st) = false;
+  sm_Es : Forall (fun o => useE o = false) (ms_os st);
+  sm_cond : ms_ign st = true -> hd_is p 40 = true /\ starts_qhash (tl p) = false;
+  sm_cinv : cinv mco (cs_c cs);
+  sm_reach : reach cs p }.
+
+Lemma Sim_move cs st p st' q : Sim cs st p -> ctl st' = ctl st -> ms_ign st = false -> (reach cs p <-> reach cs q) -> Sim cs st' q.
+Proof.
+  intros [S1 S2 S3 S4 S5 S6 S7 S8 S9] C I R. unfold ctl in C. injection C as C1 C2 C3 C4.
+  constructor; rewrite ?C1, ?C2, ?C3, ?C4; auto.
+  - intros H. congruence.
+  - apply R. exact S9.
+Qed.
+
+Lemma blank_paren x p : hd_is p 40 = true -> starts_qhash (tl p) = false -> blank x BNorm p = POk p.
+Proof.
+  destruct p as [|c t]; [discriminate|]. cbn [hd_is tl]. intros H Q. assert (c = 40) by lia. subst c.
+  cbn [blank]. change (is_space 40) with false. rewrite andb_false_r. cbn [Z.eqb Pos.eqb]. rewrite andb_false_r, Q. reflexivity.
+Qed.
+
+Lemma take_run_paren o t : take_run o (40 :: t) = ([], 40 :: t).
+Proof.
+  cbn [take_run]. assert (S : is_stopper o 40 = true) by (unfold is_stopper; destruct (useX o); reflexivity).
+  rewrite S. reflexivity.
+Qed.
+
+(* the head of a round: blanks, the literal run, blanks *)
+Lemma round_head cs st p p0 run p1 p2 : Sim cs st p ->
+  scan_blank_full (ms_o st) p = POk p0 -> take_run (ms_o st) p0 = (run, p1) -> scan_blank_full (ms_o st) p1 = POk p2 ->
+  reach cs p2 /\ (ms_ign st = true -> p2 = p /\ run = []).
+Proof.
+  intros S E0 Er E1. pose proof (oeqv_useX _ _ (sm_o _ _ _ S)) as HX.
+  destruct (ms_ign st) eqn:Ig.
+  - destruct (sm_cond _ _ _ S Ig) as [H40 Q].
+    unfold scan_blank_full in E0. rewrite (blank_paren _ p H40 Q) in E0. inversion E0; subst p0.
+    destruct p as [|c t]; [discriminate|]. cbn [hd_is] in H40. assert (c = 40) by lia. subst c.
+    rewrite take_run_paren in Er. inversion Er; subst.
+    unfold scan_blank_full in E1. rewrite (blank_paren _ (40 :: t) eq_refl Q) in E1. inversion E1; subst.
+    split; [exact (sm_reach _ _ _ S) | auto].
+  - split; [|discriminate].
+    assert (CI : cs_ign cs = false) by (rewrite (sm_ign _ _ _ S); exact Ig).
+    unfold scan_blank_full in E0, E1. rewrite HX in E0, E1.
+    apply (blank_reach cs CI p1 p2 E1). apply (reach_tskip cs p0 p1); [rewrite <- HX; eapply take_run_tskip; exact Er|].
+    apply (blank_reach cs CI p p0 E0). exact (sm_reach _ _ _ S).
+Qed.
+
+
+Local Notation tbm := (captab_main tb).
+Local Notation add_run := (add_run simple_fold participates cat_in).
+Local Notation add_alternate := (add_alternate cat_in).
+Local Notation add_group := (add_group cat_in).
+Local Notation pop_group := (pop_group cat_in).
+Local Notation round_open := (round_open is_word_char cat_in).
+Local Notation round_close := (round_close cat_in).
+Local Notation scan_round := (scan_round is_word_char to_lower simple_fold participates cat_in cat_name).
+Local Notation scan_loop_full := (scan_loop_full is_word_char to_lower simple_fold participates cat_in cat_name).
+
+Lemma Sim_at cs st p st' q : Sim cs st p -> ctl st' = ctl st -> ms_ign st = false -> reach cs q -> Sim cs st' q.
+Proof. intros S C I R. eapply Sim_move; [exact S | exact C | exact I |]. split; [intros _; exact R | intros _; exact (sm_reach _ _ _ S)]. Qed.
+
+Lemma sim_after cs st p st1 q st' q' wq : Sim cs st p -> ms_ign st = false -> ctl st1 = ctl st -> ms_unit st1 <> None ->
+  reach cs q -> after_unit st1 q = POk (st', q', wq) -> Sim cs st' q'.
+Proof.
+  intros S I C U R E.
+  assert (O1 : oeqv (ms_o st1) (cs_o cs)) by (unfold ctl in C; injection C as C1 _ _ _; rewrite C1; exact (sm_o _ _ _ S)).
+  assert (CI : cs_ign cs = false) by (rewrite (sm_ign _ _ _ S); exact I).
+  destruct (after_unit_cursor st1 q st' q' wq cs O1 CI U E) as [C' RR].
+  eapply Sim_at; [exact S | rewrite C'; exact C | exact I | apply RR; exact R].
+Qed.
+
+Lemma add_alternate_ctl st st' : add_alternate st = POk st' -> ctl st' = ctl st.
+Proof.
+  unfold Parser.add_alternate. destruct (is_cond_t (n_t (ms_group st))).
+  - destruct (add_child cat_in (ms_group st) (reverse_left (ms_concat st))); cbn [of_res pbind]; try discriminate. intros H. inversion H; reflexivity.
+  - destruct (add_child cat_in (ms_alt st) (reverse_left (ms_concat st))); cbn [of_res pbind]; try discriminate. intros H. inversion H; reflexivity.
+Qed.
+
+Lemma add_group_ctl st st' : add_group st = POk st' -> ctl st' = ctl st /\ ms_stack st' = ms_stack st.
+Proof.
+  unfold Parser.add_group. destruct (is_cond_t (n_t (ms_group st))).
+  - destruct (add_child cat_in (ms_group st) (reverse_left (ms_concat st))) as [g'| | |]; cbn [of_res pbind]; try discriminate.
+    match goal with |- (if ?c then _ else _) = _ -> _ => destruct c end; [discriminate|]. intros H. inversion H; split; reflexivity.
+  - destruct (add_child cat_in (ms_alt st) (reverse_left (ms_concat st))) as [a'| | |]; cbn [of_res pbind]; try discriminate.
+    destruct (add_child cat_in (ms_group st) a') as [g'| | |]; cbn [of_res pbind]; try discriminate. intros H. inversion H; split; reflexivity.
+Qed.
+
+Lemma pop_group_ctl st st' : pop_group st = POk st' -> ctl st' = ctl st.
+Proof.
+  unfold Parser.pop_group. destruct (ms_stack st) as [|[[g a0] c] r]; [discriminate|].
+  destruct ((n_t g =? T_ExprCond) && match n_kids g with [] => true | _ => false end).
+  - destruct (ms_unit st) as [u|]; [|discriminate].
+    destruct (add_child cat_in g u); cbn [of_res pbind]; try discriminate. intros H. inversion H; reflexivity.
+  - intros H. inversion H; reflexivity.
+Qed.
+
+(* ")" *)
+Lemma sim_close cs st p st1 p3 st' nxt : Sim cs st p -> ms_ign st = false -> ctl st1 = ctl st -> reach cs (41 :: p3) ->
+  round_close st1 p3 = POk (st', nxt) -> exists q wq cs', nxt = Some (q, wq) /\ Sim cs' st' q.
+Proof.
+  intros S I C R E. unfold Parser.round_close in E. destruct (ms_stack st1) as [|f r] eqn:Es; [discriminate|].
+  destruct (add_group st1) as [st2|e q| | |] eqn:E2; cbn [pbind] in E; try discriminate.
+  destruct (pop_group st2) as [st3|e q| | |] eqn:E3; cbn [pbind] in E; try discriminate.
+  destruct (add_group_ctl _ _ E2) as [C2 _]. pose proof (pop_group_ctl _ _ E3) as C3.
+  assert (C13 : ctl st3 = ctl st) by (rewrite C3, C2; exact C).
+  unfold ctl in C13. injection C13 as K1 K2 K3 K4.
+  unfold pop_options in E. destruct (ms_os st3) as [|o1 os1] eqn:Eos; [discriminate|]. cbn [pbind] in E.
+  pose proof (sm_os _ _ _ S) as F2. rewrite <- K2 in F2. inversion F2 as [|? b1 ? bs Ob Obs Eq1 Eq2]; subst.
+  set (cs' := mkCS (cs_c cs) b1 bs (cs_ign cs)).
+  assert (R' : reach cs' p3).
+  { apply reach_cons in R. destruct R as [st'' [qq [ES RR]]]. rewrite (step41 cs p3 b1 bs (eq_sym Eq2)) in ES. inversion ES; subst. exact RR. }
+  set (st4 := mkMS (ms_stack st3) (ms_group st3) (ms_alt st3) (ms_concat st3) (ms_unit st3) o1 os1 (ms_ign st3) (ms_autocap st3)) in *.
+  pose proof (sm_Es _ _ _ S) as FE. rewrite <- K2 in FE. inversion FE as [|? ? E1 Es']; subst.
+  assert (S4 : Sim cs' st4 p3).
+  { constructor; cbn [cs' st4 ms_o ms_os ms_ign ms_autocap cs_o cs_os cs_ign cs_c]; auto.
+    - rewrite K3. exact (sm_ign _ _ _ S).
+    - rewrite K4. exact (sm_auto _ _ _ S).
+    - rewrite K3, I. discriminate.
+    - exact (sm_cinv _ _ _ S). }
+  destruct (ms_unit st4) as [u|] eqn:EU.
+  - destruct (after_unit st4 p3) as [[[st5 q5] wq]|e q0| | |] eqn:EA; cbn [pbind] in E; try discriminate.
+    inversion E; subst. exists q5, wq, cs'. split; [reflexivity|].
+    eapply sim_after; [exact S4 | cbn; rewrite K3; exact I | reflexivity | rewrite EU; discriminate | exact R' | exact EA].
+  - inversion E; subst. exists p3, false, cs'. split; [reflexivity | exact S4].
+Qed.
+
+
+Lemma in_caps cs' q k : reach cs' q -> In k (c_caps (cs_c cs')) -> zmem k caps = true.
+Proof. intros R H. apply zmem_In. apply HF1. destruct (reach_mono cs' q R) as [M _]. apply M. exact H. Qed.
+
+(* "(" *)
+Lemma sim_open cs st p st1 p3 st' nxt : Sim cs st p -> ctl st1 = ctl st -> ms_unit st1 = None ->
+  reach cs (40 :: p3) -> starts_qhash p3 = false ->
+  round_open tbm mco st1 p3 = POk (st', nxt) ->
+  (nxt = Some (p3, false) /\ hd_is p3 63 = true /\ ms_unit st' = None) \/
+  (((is_nil p3 || negb (hd_is p3 63) || nth_is 1 p3 41) = true -> (useN (ms_o st) || ms_ign st) = false ->
+    zmem (ms_autocap st) caps = true) /\
+   exists q wq cs', nxt = Some (q, wq) /\ Sim cs' st' q).
+Proof.
+  intros S C U R Q E. unfold ctl in C. injection C as C1 C2 C3 C4.
+  pose proof (sm_o _ _ _ S) as So. pose proof (sm_E _ _ _ S) as SE.
+  unfold Parser.round_open in E. rewrite C1, C3, C4 in E.
+  destruct (useRE2 (ms_o st) && negb (ms_ign st) && hd_is p3 63 && nth_is 1 p3 80 && nth_is 2 p3 61) eqn:PY.
+  { (* (?P=name) under RE2: no group *)
+    right. split.
+    { intros HP _. exfalso. destruct p3 as [|c0 [|c1 p5]]; try (rewrite ?andb_false_r in PY; discriminate).
+      cbn [hd_is nth_is skipn] in PY. cbn [is_nil hd_is nth_is skipn negb orb] in HP. lia. }
+    destruct (python_backref is_word_char tbm (ms_o st) (skipn 3 p3)) as [[x q]|e q| | |] eqn:EP; cbn [pbind] in E; try discriminate.
+    destruct (after_unit (set_unit st1 (Some x)) q) as [[[st5 q5] wq]|e q0| | |] eqn:EA; cbn [pbind] in E; try discriminate.
+    inversion E; subst. exists q5, wq, cs. split; [reflexivity|].
+    assert (I : ms_ign st = false) by (destruct (ms_ign st); [cbn [negb] in PY; rewrite andb_false_r in PY; cbn [andb] in PY; discriminate | reflexivity]).
+    eapply (sim_after cs st p (set_unit st1 (Some x)) q st' q5 wq S I); [unfold ctl, set_unit; cbn [ms_o ms_os ms_ign ms_autocap]; rewrite C1, C2, C3, C4; reflexivity | unfold set_unit; cbn [ms_unit]; discriminate | | exact EA].
+    (* the pre-scan: "(" pushes, "?P=name" are plain characters, ")" pops *)
+    destruct p3 as [|c0 [|c1 [|c2 p6]]]; try (rewrite ?andb_false_r in PY; discriminate).
+    cbn [hd_is nth_is skipn] in PY. assert (c0 = 63) by lia. assert (c1 = 80) by lia. assert (c2 = 61) by lia. subst c0 c1 c2.
+    cbn [skipn] in EP. unfold Parser.python_backref in EP. destruct p6 as [|ch p7]; [discriminate|]. rewrite SE in EP.
+    destruct (negb (is_word_char ch)); [discriminate|].
+    pose proof (scan_word_tskip (useX (cs_o cs)) (ch :: p7)) as TW. destruct (scan_word is_word_char (ch :: p7)) as [nm q0]. cbn [snd] in TW.
+    destruct (negb (is_nil nm) && hd_is q0 41) eqn:EH; [|discriminate]. destruct (ct_name tbm nm); [|discriminate]. inversion EP; subst.
+    set (cs1 := mkCS (cs_c cs) (cs_o cs) (cs_o cs :: cs_os cs) false).
+    assert (S1 : prescan_open mco cs (40 :: 63 :: 80 :: 61 :: ch :: p7) (63 :: 80 :: 61 :: ch :: p7) = POk (cs1, 80 :: 61 :: ch :: p7)).
+    { unfold Parser.prescan_open. change (starts_qhash (63 :: 80 :: 61 :: ch :: p7)) with false. cbv iota.
+      change (hd_is (63 :: 80 :: 61 :: ch :: p7) 63) with true. cbv iota. cbn [tl].
+      change (hd_is (80 :: 61 :: ch :: p7) 60) with false. change (hd_is (80 :: 61 :: ch :: p7) 39) with false. cbn [orb]. rewrite andb_false_r.
+      change (nth_is 1 (80 :: 61 :: ch :: p7) 60) with false. rewrite andb_false_r.
+      replace (scan_options_text (cs_o cs) (80 :: 61 :: ch :: p7)) with (cs_o cs, 80 :: 61 :: ch :: p7) by reflexivity.
+      cbn [hd_is Z.eqb Pos.eqb cs_c cs_o cs_os cs_ign set_cs_ign]. reflexivity. }
+    apply (psteps_reach cs (40 :: 63 :: 80 :: 61 :: ch :: p7) cs (tl q0)); [|exact R].
+    eapply ps_step; [rewrite step40; exact S1|].
+    eapply psteps_trans; [apply psteps_tskip; apply tskip_cons; apply ptriv_intro; intros; lia|].
+    eapply psteps_trans; [apply psteps_tskip; apply tskip_cons; apply ptriv_intro; intros; lia|].
+    eapply psteps_trans; [apply psteps_tskip; exact TW|].
+    destruct q0 as [|c q0']; [rewrite andb_false_r in EH; discriminate|]. apply andb_prop in EH. destruct EH as [_ EH]. cbn [hd_is] in EH.
+    assert (c = 41) by lia. subst c. cbn [tl].
+    assert (CI : cs_ign cs = false) by (rewrite (sm_ign _ _ _ S); exact I).
+    apply psteps_one. rewrite (step41 cs1 q0' (cs_o cs) (cs_os cs) eq_refl). cbn [cs1 cs_c cs_ign].
+    clear - CI. destruct cs as [c0 o0 os0 i0]. cbn in CI |- *. subst i0. reflexivity. }
+  (* scanGroupOpen *)
+  destruct (Parser.group_open is_word_char tbm mco (n_t (ms_group st1)) (mkGV (ms_o st) (ms_ign st) (ms_autocap st)) p3) as [[[g v] q]|e q| | |] eqn:EG;
+    cbn [pbind] in E; try discriminate.
+  destruct (open_sim cs (ms_o st) (ms_autocap st) So SE (sm_auto _ _ _ S) (sm_cinv _ _ _ S) _ (ms_ign st) p3 g v q (sm_ign _ _ _ S) R Q EG)
+    as [[D1 [D2 [D3 D4]]] | [[cs' [qp [PS [NR [P1 [P2 [P3 [P4 [P5 P6]]]]]]]]] PL]].
+  - left. subst q. destruct g as [gn|]; [|congruence]. inversion E; subst. split; [reflexivity|]. split; [exact D1 | cbn; exact U].
+  - right.
+    assert (R' : reach cs' q) by (apply (reach_near cs' qp q NR); apply (psteps_reach _ _ _ _ PS); exact R).
+    split.
+    { intros HP HN. eapply in_caps; [exact R'|]. apply P6; [apply PL; exact HP | exact HN]. }
+    pose proof (group_open_useE _ _ _ _ _ _ EG) as GE. cbn [gv_o] in GE.
+    destruct g as [gn|]; inversion E; subst; exists q, false, cs'; (split; [reflexivity|]).
+    + constructor; cbn [start_group push_group ms_o ms_os ms_ign ms_autocap]; auto.
+      * rewrite P4, C2. constructor; [exact So | exact (sm_os _ _ _ S)].
+      * rewrite GE. exact SE.
+      * rewrite C2. constructor; [exact SE | exact (sm_Es _ _ _ S)].
+      * eapply psteps_cinv; [exact PS | exact (sm_cinv _ _ _ S)].
+    + constructor; cbn [ms_o ms_os ms_ign ms_autocap]; auto.
+      * rewrite P4, C2. exact (sm_os _ _ _ S).
+      * rewrite GE. exact SE.
+      * rewrite C2. exact (sm_Es _ _ _ S).
+      * eapply psteps_cinv; [exact PS | exact (sm_cinv _ _ _ S)].
+Qed.
 
 End Agree.
